@@ -310,6 +310,32 @@ def bounded_models(ctx):
         name = f"C08.evaluator.{f['logic']}" if f['kind'] == 'value' else f"C08.bounded.{f['kind']}.{f['logic']}"
         ctx.bounded_failure(name, str(f)[:300], f, instance=f.get('sentence', ''))
 
+def classical_every_world(ctx):
+    """the classical completion reaches every world of the finished model -- also worlds that have no value of their own before finish():
+    named only by the access relation, or created by the serial frame condition.  Run on the real model classes (finite list of shapes)."""
+    from pytableaux.logics import registry
+    from pytableaux.lang import Predicate, Constant, Atomic, Quantified, Variable
+    a = Constant(0, 0); F = Predicate(0, 0, 1); I = Predicate.Identity; E = Predicate.Existence; x = Variable(0, 0)
+    bad = []; cases = 0
+    shapes = {'world named by R only': [(0, 1)], 'chain through R': [(0, 1), (1, 2)], 'no access pair given': [], 'back edge': [(0, 2), (2, 1)]}
+    for L in ('K', 'D', 'T', 'S4', 'S5'):
+        logic = registry(L)
+        for sname, pairs in shapes.items():
+            cases += 1
+            m = logic.Model()
+            try:
+                m.set_predicated_value(F(a), 'T', world=0)
+                for p in pairs: m.R.add(p)
+                m.finish()
+                worlds = sorted(set(m.R) | {w for p in m.R.flat() for w in p})
+                for w in worlds:
+                    for s_, what in ((I((a, a)), 'a=a'), (E((a,)), '!a'), (Quantified('Universal', x, I((x, x))), 'for all x: x=x')):
+                        v = m.value_of(s_, world=w).name
+                        if v != 'T': bad.append(f'{L}, {sname}: {what} is {v} at world {w} (worlds {worlds})')
+            except Exception as e: bad.append(f'{L}, {sname}: {type(e).__name__}: {e}')
+    ctx.add(enum_ob('C08.classical.completion-reaches-every-world', not bad, cases=cases, kind='every-world', cex=dict(bad=bad[:4]) if bad else None,
+                    clause='after finish(), identity is reflexive and existence universal at EVERY world of the model, including worlds that only the access relation (or the serial condition) names'))
+
 def classical_completion(ctx):
     """B: cpl.Model.finish: identity an equivalence that every extension respects, existence universal, for every
     insertion order of up to 4 set_*_value calls over 3 constants"""
@@ -523,6 +549,7 @@ def run(ctx):
                        'against the independent evaluator; classical identity/existence completion over insertion orders.')
     limit_best(ctx)
     base_family_obligations(ctx)
+    classical_every_world(ctx)
     from checks import rulesem as RS
     registry = RS.registry()
     names = [registry(n).Meta.name for n in registry]
@@ -539,6 +566,12 @@ def replay(payload):
     "build the family on a real model and evaluate the real quantified / modal sentence"
     name = payload.get('obligation', '')
     cex = payload.get('counterexample') or {}
+    if name.endswith('completion-reaches-every-world'):
+        from pyvc.report import Ctx
+        c2 = Ctx('C08', 'quick', 0); classical_every_world(c2)
+        r2 = c2.results[-1]
+        bad = ((r2.meta or {}).get('cex') or {}).get('bad') or []
+        return dict(reproduced=bool(bad), detail='; '.join(bad[:2]) or 'identity and existence hold at every world of the finished models')
     parts = name.split('.')
     if len(parts) >= 4 and parts[2] in ('quantified', 'operated') and 'note' in cex:
         return replay_world(parts[1], parts[2], parts[3])
